@@ -258,7 +258,7 @@ def check(case, rec):
 
 
 def search(ctx):
-    ctx.given(site(), ctx.n(300, 8000), shrink=True)
+    ctx.given(site(), ctx.n(300, 4000), shrink=True)
 
 
 SUBS = [Sub("constrained_domain", check, search, shards=lambda t: 16)]
